@@ -1,18 +1,18 @@
 SPECIFICATION Spec
 CONSTANTS
-  Specs = {"r", "a", "b", "d", "j", "g", "m"}
-  WithItems = {"r", "a", "b"}
+  Specs = {"r", "a", "b", "c", "m"}
+  WithItems = {"r", "a", "b", "c"}
   Big = {"r"}
   MaxRoot = 2
   MaxOther = 1
   Forms = {"static", "dynamic", "type"}
-  Targets = {"a", "b", "j", "g", "m"}
-  Sp1 = {"j"}
+  Targets = {"a", "b", "c", "m"}
+  Sp1 = {}
   MayMiss = {"m"}
-  MayRedirect = {}
-  MayErr = {}
-  RootChoices <- Roots_r
-  SelfTypes <- ST_bd
+  MayRedirect = {"a", "b", "c"}
+  MayErr = {"c"}
+  RootChoices <- Roots_ra
+  SelfTypes <- ST_none
   TsTypes = {}
   JsonAttr = FALSE
   Emit = TRUE
